@@ -19,7 +19,10 @@ import (
 	"net"
 	"os"
 	"path/filepath"
+	"runtime"
 	"sort"
+	"sync"
+	"sync/atomic"
 	"testing"
 
 	"github.com/refraction-networking/conjure/pkg/core"
@@ -47,9 +50,14 @@ type c14lSel struct {
 	V6   bool   `json:"v6"`
 }
 type c14lCase struct {
-	Op    string      `json:"op"`
+	Op    string      `json:"op"` // life | lifeconc
 	Files []c14lFile  `json:"files"`
 	Sels  [][]c14lSel `json:"sels"`
+	// lifeconc: Workers goroutines run the selections of Sels[0] while the manager is reloaded Reloads times,
+	// alternating between Files[1] and Files[0]
+	Workers int `json:"workers"`
+	Rounds  int `json:"rounds"`
+	Reloads int `json:"reloads"`
 }
 type c14lRes struct {
 	Out     string   `json:"out"` // ok | err | panic
@@ -73,8 +81,106 @@ type c14lStep struct {
 	Gens    []int     `json:"gens"`    // generations the held selector answers for (non-nil entries)
 	Sel     []c14lObs `json:"sel"`
 }
+type c14lConcSel struct {
+	Seen []string `json:"seen"` // distinct answers (out/ip/rp) observed while reloads were going on
+	A    string   `json:"a"`    // the answer of a selector loaded freshly from Files[0]
+	B    string   `json:"b"`    // ... from Files[1]
+}
 type c14lOut struct {
 	Steps []c14lStep `json:"steps"`
+	// lifeconc
+	Conc    []c14lConcSel `json:"conc,omitempty"`
+	Reloads int           `json:"reloads"`
+	Ops     int64         `json:"ops"`
+	Stage   string        `json:"stage,omitempty"`
+}
+
+func c14lKey(r c14lRes) string { return fmt.Sprintf("%s/%s/%v", r.Out, r.IP, r.RP) }
+
+func c14lSelectOn(sel *phantoms.PhantomIPSelector, s c14lSel) (r c14lRes) {
+	defer func() {
+		if e := recover(); e != nil {
+			r = c14lRes{Out: "panic", Err: fmt.Sprint(e)}
+		}
+	}()
+	seed, _ := hex.DecodeString(s.Seed)
+	p, err := sel.Select(seed, s.Gen, s.LV, s.V6)
+	if err != nil || p == nil {
+		return c14lRecord(nil, nil, false, err)
+	}
+	return c14lRecord(nil, p.IP(), p.SupportRandomPort(), nil)
+}
+
+// selections through GetPhantomSelector().Select from several goroutines while OnReload alternates between two files
+func c14lConcRun(c c14lCase, dir string, logger *log.Logger) (out c14lOut) {
+	paths := []string{c14lPlace(dir, "a.toml", c.Files[0]), c14lPlace(dir, "b.toml", c.Files[1])}
+	fa, erra := phantoms.SubnetsFromTomlFile(paths[0])
+	fb, errb := phantoms.SubnetsFromTomlFile(paths[1])
+	rm, stage := c14lManager(paths[0], logger)
+	out.Stage = stage
+	if rm == nil || erra != nil || errb != nil {
+		out.Stage = fmt.Sprintf("setup:%s %v %v", stage, erra, errb)
+		return out
+	}
+	sels := c.Sels[0]
+	var ops int64
+	var done int32
+	var mu sync.Mutex
+	seen := make([]map[string]bool, len(sels))
+	for i := range seen {
+		seen[i] = map[string]bool{}
+	}
+	var wg sync.WaitGroup
+	for w := 0; w < c.Workers; w++ {
+		wg.Add(1)
+		go func(w int) {
+			defer wg.Done()
+			local := make([]map[string]bool, len(sels))
+			for i := range local {
+				local[i] = map[string]bool{}
+			}
+			for round := 0; round < c.Rounds || atomic.LoadInt32(&done) == 0; round++ {
+				for j := range sels {
+					i := (j + w) % len(sels)
+					local[i][c14lKey(c14lSelect(rm, nil, sels[i]))] = true
+					atomic.AddInt64(&ops, 1)
+				}
+			}
+			mu.Lock()
+			for i := range local {
+				for k := range local[i] {
+					seen[i][k] = true
+				}
+			}
+			mu.Unlock()
+		}(w)
+	}
+	out.Stage = c14lGuard(func() {
+		for k := 0; k < c.Reloads; k++ {
+			// let the workers get some selections in under the current configuration
+			start := atomic.LoadInt64(&ops)
+			for spin := 0; atomic.LoadInt64(&ops) < start+int64(2*c.Workers) && spin < 1000000; spin++ {
+				runtime.Gosched()
+			}
+			os.Setenv("PHANTOM_SUBNET_LOCATION", paths[(k+1)%2])
+			conf := &RegConfig{}
+			_ = conf.ParseBlocklists()
+			rm.OnReload(conf)
+			out.Reloads++
+		}
+	})
+	atomic.StoreInt32(&done, 1)
+	wg.Wait()
+	out.Ops = atomic.LoadInt64(&ops)
+	for i, s := range sels {
+		cs := c14lConcSel{A: c14lKey(c14lSelectOn(fa, s)), B: c14lKey(c14lSelectOn(fb, s))}
+		for k := range seen[i] {
+			cs.Seen = append(cs.Seen, k)
+		}
+		sort.Strings(cs.Seen)
+		out.Conc = append(out.Conc, cs)
+	}
+	return out
 }
 
 func c14lGuard(f func()) (out string) {
@@ -260,7 +366,11 @@ func TestVerifC14Lifecycle(t *testing.T) {
 	golog.SetOutput(io.Discard)
 	res := make([]c14lOut, len(cases))
 	for i, c := range cases {
-		res[i] = c14lRun(c, t.TempDir(), logger)
+		if c.Op == "lifeconc" {
+			res[i] = c14lConcRun(c, t.TempDir(), logger)
+		} else {
+			res[i] = c14lRun(c, t.TempDir(), logger)
+		}
 	}
 	os.Stdout = stdout
 	out, _ := json.Marshal(res)
